@@ -1,6 +1,12 @@
+mod agents;
+mod c23;
+mod engine;
+mod spec;
+
 fn main() {
     let ctx = mc_core::Ctx::from_args();
     match ctx.prop.as_str() {
-        p => mc_core::report::machinery_failure(&format!("mc-agents does not serve {p} yet")),
+        "C23" => c23::run(ctx),
+        p => mc_core::report::machinery_failure(&format!("mc-agents does not serve {p}")),
     }
 }
